@@ -295,7 +295,14 @@ namespace bloch::compiler {
                 if (fn->hasShotsAnnotation) {
                     for (std::unique_ptr<AnnotationNode>& annotation : fn->annotations) {
                         if (annotation && annotation->name == "shots") {
-                            int shotCount = std::stoi(annotation->value);
+                            int shotCount = 0;
+                            try {
+                                shotCount = std::stoi(annotation->value);
+                            } catch (const std::exception&) {
+                                throw BlochError(ErrorCategory::Semantic, fn->line, fn->column,
+                                                 "@shots value '" + annotation->value +
+                                                     "' is out of range");
+                            }
                             merged->shots = {true, shotCount};
                         }
                     }
